@@ -34,15 +34,21 @@ ASSUMPTIONS = [
     "unanticipated swaps pair a variable and a shock at the same date; anticipated targets/instruments may be at different dates",
     "with anticipated swaps, background unanticipated shocks are dated in the first period only (later surprises change the information set under which the instruments were anticipated)",
     "stacked_time is run in levels only (deviation is a first-order concept)",
+    "anchored nonlinear models (stacked_time only): the truth comes from stacked_time; recovered instrument values and paths are not compared (the instruments hitting a target need not be unique), only exogenized points, untouched shocks and the equations on the planned path",
     "input values at endogenized shock cells are set to zero (the truth value is hidden); tolerance 1e-8 relative (first_order), 1e-6 (stacked_time)",
 ]
 
 MARGIN = 0.1
+SOLVER = {"func_tolerance": 1e-10, "step_tolerance": float("inf"), "max_iterations": 200}
 
 
 @st.composite
 def _case(draw):
-    spec = draw(lm.spec_strategy(max_n=4, meas=(0, 1), min_leads=0))
+    method = draw(st.sampled_from(["first_order", "first_order", "stacked_time"]))
+    if method == "stacked_time" and draw(st.booleans()):
+        spec = draw(lm.nl_spec_strategy(max_n=3, meas=(0, 1)))      # genuinely nonlinear: truth and plan both by stacked_time
+    else:
+        spec = draw(lm.spec_strategy(max_n=4, meas=(0, 1), min_leads=0))
     n = spec["n"]
     N = draw(st.integers(2, 8))
     mode = draw(st.sampled_from(["unanticipated", "anticipated"]))
@@ -60,7 +66,7 @@ def _case(draw):
                                    st.floats(-1, 1, allow_nan=False).map(lambda x: round(x, 3))), max_size=4))
     return {"spec": spec, "N": N, "mode": mode, "pairs": pairs,
             "background": [list(b) for b in background], "init": [list(i) for i in init],
-            "method": draw(st.sampled_from(["first_order", "first_order", "stacked_time"])),
+            "method": method,
             "deviation": draw(st.booleans()),
             "api": draw(st.sampled_from(["swap", "separate"]))}
 
@@ -68,6 +74,8 @@ def _case(draw):
 def _classify(case):
     pairs = case["pairs"]
     labels = [case["mode"], case["method"], f"pairs_{len(pairs)}", "deviation" if case["deviation"] else "levels"]
+    if lm.nl_terms(case["spec"]):
+        labels.append("nonlinear_model")
     dates = {p[1] for p in pairs}
     nontrivial = (len(pairs) >= 2 and len(dates) >= 2) or (case["mode"] == "anticipated" and any(p[1] > 0 or p[3] > 0 for p in pairs))
     if case["mode"] == "anticipated" and any(p[1] != p[3] for p in pairs):
@@ -167,7 +175,14 @@ def _check(case):
     dbT = base_db()
     for (_, _, shock, ts, v) in pairs:
         dbT[pre + shn[shock]][start + ts] = v
-    PT = api("simulate_truth", m.simulate, dbT, span, method="first_order", deviation=dev)
+    if lm.nl_terms(spec):
+        # the first-order path is only an approximation of a nonlinear model: the truth comes from the same method
+        try:
+            PT = m.simulate(dbT, span, method="stacked_time", solver_settings=SOLVER)
+        except Exception as exc:  # noqa: BLE001
+            return {"labels": ["stacked_time_failed:" + type(exc).__name__], "nontrivial": False}
+    else:
+        PT = api("simulate_truth", m.simulate, dbT, span, method="first_order", deviation=dev)
 
     # ---- planned simulation ------------------------------------------------------------
     dbP = base_db()
@@ -187,6 +202,8 @@ def _check(case):
             else:
                 api("plan:exogenize_anticipated", plan.exogenize_anticipated, start + tt, nm)
                 api("plan:endogenize_anticipated", plan.endogenize_anticipated, start + ts, "ant_" + shn[shock])
+    if method == "stacked_time":
+        sim_kw["solver_settings"] = SOLVER
     try:
         PP = m.simulate(dbP, span, plan=plan, **sim_kw)
     except Exception as exc:  # noqa: BLE001
@@ -206,6 +223,7 @@ def _check(case):
         col.check(abs(a - b) <= rtol * scale, "exogenized_point_missed",
                   lambda: f"{nm} at t={tt}: {a!r} target {b!r} ({mode}, {method})\n{lm.source(spec)}")
     # 2/3. shocks: endogenized cells recover the truth, all other cells keep their input
+    nonlinear = bool(lm.nl_terms(spec))      # a nonlinear model may hit the targets with other instrument values
     inst = {(shock, ts) for (_, _, shock, ts, _) in pairs}
     for i, s in enumerate(shn):
         if not s:
@@ -216,10 +234,28 @@ def _check(case):
             b = np.where(np.isnan(b), 0.0, b)
             for t in range(N):
                 is_inst = (i, t) in inst and prefix == pre
+                if is_inst and nonlinear:
+                    continue
                 bucket = "endogenized_shock_not_recovered" if is_inst else "non_endogenized_shock_changed"
                 col.check(abs(a[t] - b[t]) <= rtol * 10 * scale, bucket,
                           lambda: f"{prefix + s} at t={t}: {a[t]!r} expected {b[t]!r} ({mode}, {method}); pairs={pairs}\n{lm.source(spec)}")
-    # 3. the whole path is recovered
+    # 3. the whole path is recovered (linear and log-linear models); for nonlinear models the planned path must
+    #    satisfy the equations with the shocks it reports (single-frame set-ups, periods whose leads are in the span)
+    if nonlinear:
+        late_surprise = any((not ant) and tau > 0 and shn[i] for i, tau, _v, ant in case["background"])
+        single = (mode == "anticipated" or all(p_[1] == 0 for p_ in pairs)) and not late_surprise
+        if single:
+            get = sd.getter(pP, spec, unanticipated_only_at=0)
+            pP.first = 0
+            hist = sd.Paths(PP, spec, start, -Lmax, N - 1)
+            getf = sd.getter(hist, spec, unanticipated_only_at=0)
+            for t in range(0, N - Fmax):
+                r, mag = lm.residuals_as_written(spec, getf, t)
+                for i, ri in enumerate(r):
+                    col.check(abs(ri) <= 1e-7 * (1 + mag), "planned_path_violates_equation",
+                              lambda: f"equation {i} at t={t}: residual {ri!r} on the planned stacked_time path\n{lm.source(spec)}")
+        col.done()
+        return {"labels": ["judged", "nonlinear_judged"], "nontrivial": True}
     for nm in spec["names"] + (lm.meas_names(spec) if method == "first_order" else []):
         a, b = pP.arr(nm), pT.arr(nm)
         d = np.abs(np.log(a) - np.log(b)) if log else np.abs(a - b)
